@@ -727,6 +727,10 @@ def run_part(c09, args, bdir, wd, ok, probes):
             problems.append("driver rejected a request: %s / %s" % (ans, rq[:300]))
             continue
         realtxt = c["real"] if isinstance(c["real"], str) else [(o, bb.hex()) for o, bb in c["real"]]
+        # hypothesis of the whole-slot theorems C09_data_slot(_bytes)_model_eq_spec evaluated by the driver on this case
+        dist["d-theorem-hypothesis:" + ("met" if kv.get("pre") == "1" else "not-met")] += 1
+        if kv.get("thm") != "ok":
+            problems.append("C09_data_slot_model_eq_spec contradicted by the executable definitions: %s / %s" % (ans[:200], rq[:300]))
         if kv["spec"] != "ok":
             sig = d_classify(c) if kv["model"] == "eq" else None
             known_hits[str(sig)] += 1
